@@ -10,6 +10,16 @@ CONSTANTS = {
         # `DecoderState::Header { buf: [u8; 4], .. }` and `if *read == 4 {`
         ("IPC_HEADER_LEN", "arrow-ipc/src/reader/stream.rs", r"Header\s*\{\s*(?:///[^\n]*\s*)*buf:\s*\[u8;\s*(\d+)\]", "int"),
         ("IPC_HEADER_FULL", "arrow-ipc/src/reader/stream.rs", r"if\s+\*read\s*==\s*(\d+)\s*\{", "int"),
+        # the zero-copy fast paths of `StreamDecoder::decode`, captured together with their guards and the
+        # scratch-buffer arithmetic that follows: editing the guard (`self.buf.is_empty() && buffer.len() > len`),
+        # the slice start or the `min(len - self.buf.len())` makes the item LOST.  Value = slice start offset.
+        ("IPC_MSG_SLICE_START", "arrow-ipc/src/reader/stream.rs",
+         r"DecoderState::Message\s*\{\s*size\s*\}\s*=>\s*\{\s*let len = \*size as usize;\s*if self\.buf\.is_empty\(\) && buffer\.len\(\) > len \{\s*let message = MessageBuffer::try_new\(buffer\.slice_with_length\((\d+), len\)\)\?;\s*self\.state = DecoderState::Body \{ message \};\s*buffer\.advance\(len\);\s*continue;\s*\}\s*let to_read = buffer\.len\(\)\.min\(len - self\.buf\.len\(\)\);", "int"),
+        ("IPC_BODY_SLICE_START", "arrow-ipc/src/reader/stream.rs",
+         r"let body = if self\.buf\.is_empty\(\) && buffer\.len\(\) >= body_length \{\s*let body = buffer\.slice_with_length\((\d+), body_length\);\s*buffer\.advance\(body_length\);\s*body\s*\} else \{\s*let to_read = buffer\.len\(\)\.min\(body_length - self\.buf\.len\(\)\);", "int"),
+        # header copy: `let to_read = buffer.len().min(offset_buf.len());` over `&mut buf[*read as usize..]`
+        ("IPC_HEADER_COPY_FROM", "arrow-ipc/src/reader/stream.rs",
+         r"let offset_buf = &mut buf\[\*read as usize\.\.\];\s*let to_read = buffer\.len\(\)\.min\(offset_buf\.len\(\)\);\s*offset_buf\[\.\.to_read\]\.copy_from_slice\(&buffer\[\.\.to_read\]\);\s*\*read \+= to_read as u8;\s*buffer\.advance\(to_read\);\s*if \*read == \d+ \{\s*if !\*continuation && buf == &CONTINUATION_MARKER \{\s*\*continuation = true;\s*\*read = (\d+);", "int"),
         # Avro block: 16 byte sync marker
         ("AVRO_SYNC_LEN", "arrow-avro/src/reader/block.rs", r"pub\s+sync:\s*\[u8;\s*(\d+)\]", "int"),
         ("AVRO_SYNC_REMAINING", "arrow-avro/src/reader/block.rs", r"if\s+self\.bytes_remaining\s*==\s*0\s*\{\s*self\.bytes_remaining\s*=\s*(\d+);", "int"),
